@@ -2,6 +2,8 @@ import TnVerif.Lemmas.Dual
 import TnVerif.Props.C02
 import TnVerif.Props.C03
 import TnVerif.Props.C06
+import TnVerif.Props.C12
+import TnVerif.Props.C20
 /-!
 # C07 — gradients through compressed operations equal gradients through the dense arrays
 
@@ -55,5 +57,47 @@ theorem dataScale_loses_gradient : Dual.dataScale (3 : Int) ⟨1, 1⟩ ≠ (Dual
 /-- multiplication by a constant scales the tangent (what the repaired code does) -/
 theorem const_mul_tangent (c : R) (x : Dual R) : ((Dual.const c) * x).d = c * x.d := by
   simp [Dual.const]
+
+/-! ### the routines modelled in the extension round, instantiated at dual numbers -/
+
+/-- **sums over any modes** (keepdim form; `tn.sum`, and with it the unnormalised part of `mean`): value and tangent of every
+    entry are those of the dense array summed over exactly the listed modes -/
+theorem sumKeep_tangent (t : Tensor (Dual R)) (dims : List Bool) (idx : List Nat) (hd : dims.length = t.length)
+    (hi : idx.length = t.length) :
+    ((t.sumKeep dims).dense idx).d = (sumOver dims t.shape t.dense idx).d := by
+  rw [C06.sumKeep_sumOver t dims idx hd hi]
+
+/-- the sum over all modes, as the scalar `tn.sum(t)` returns -/
+theorem sum_all_tangent (t : Tensor (Dual R)) (ht : t.WF) :
+    ∃ s : Dual R, t.sum (allDims t) = .ok (.inr s) ∧ s.d = (boxSum t.shape t.dense).d :=
+  ⟨_, C06.sum_all t ht, rfl⟩
+
+/-- **squared distance**: the radicand of `tn.dist` is, in value and tangent, the squared norm of the difference -/
+theorem distsq_tangent (t u : Tensor (Dual R)) (ht : t.WF) (hu : u.WF) (hs : t.shape = u.shape) :
+    (t.normsq + u.normsq - 2 * t.dot u).d = ((t.sub u).normsq).d := by
+  rw [C06.distsq_eq_normsq_sub t u ht hu hs]
+
+/-- **tensor-times-matrix products along any modes** (`tn.ttm`; flips, cumulative sums, paddings, finite differences are instances) -/
+theorem ttm_tangent (t : Tensor (Dual R)) (maps : List (Option (Nat × (Nat → Nat → Dual R)))) (idx : List Nat)
+    (hl : maps.length = t.length) (hi : idx.length = t.length) :
+    ((t.ttm maps).dense idx).d = (applyMaps maps t.shape t.dense idx).d := by
+  rw [C12.linModes_dense t maps idx hl hi]
+
+/-- **concatenation**: the tangent of an entry of `tn.cat(ts, dim)` is the tangent of the entry of the operand whose block contains it -/
+theorem cat_tangent (t0 : Tensor (Dual R)) (rest : List (Tensor (Dual R))) (d : Nat)
+    (hwf : ∀ t ∈ t0 :: rest, t.WF) (hlen : ∀ t ∈ rest, t.length = t0.length) (hd : d < t0.length)
+    (hs : ∀ t ∈ rest, ∀ k, k ≠ d → t.shape.getD k 0 = t0.shape.getD k 0)
+    (idx : List Nat) (hi : idx.length = t0.length) (k : Nat) (hk : k < (t0 :: rest).length)
+    (hlo : (((t0 :: rest).take k).map (catSize d)).sum ≤ idx.getD d 0)
+    (hhi : idx.getD d 0 < (((t0 :: rest).take (k + 1)).map (catSize d)).sum) :
+    ((Tensor.catN (t0 :: rest) d).dense idx).d =
+      (((t0 :: rest)[k]).dense (idx.set d (idx.getD d 0 - (((t0 :: rest).take k).map (catSize d)).sum))).d := by
+  rw [C12.catN_dense t0 rest d hwf hlen hd hs idx hi k hk hlo hhi]
+
+/-- **finite differences** of any order along a mode -/
+theorem partialN_tangent (t : Tensor (Dual R)) (d : Nat) (c : Dual R) (per : Bool) (k : Nat) (idx : List Nat)
+    (hd : d < t.length) (hi : idx.length = t.length) :
+    ((t.partialN d c per k).dense idx).d = ((C20.denseD t.shape d c per)^[k] t.dense idx).d := by
+  rw [C20.partialN_dense t d c per hd k idx hi]
 
 end TN.C07
